@@ -1,19 +1,35 @@
 /- GENERATED: instance obligations for one logic, discharged by kernel evaluation.
-   `X ⊆ known`: every failing row is a committed known finding (Ptx/Gen/Known.lean). -/
+   `S` = the logic with its DOCUMENTED tables (Ptx/Sem/Spec.lean); rules, closure, trunk and frames
+   are what the translator read off the code.  `X ⊆ known`: every failing row is a committed
+   known finding (Ptx/Gen/Known.lean, generated from known_findings.json). -/
 import Ptx.Gen.L_K
 import Ptx.Gen.Known
 import Ptx.Sem.Subset
+import Ptx.Props.C01
+import Ptx.Gen.L_CFOL
 namespace Ptx.Gen.Obl.K
 open Ptx
 
-theorem tables_total : Gen.K.tablesTotalB = true := by decide +kernel
-theorem rules_exact : subsetB Gen.K.badRules (Known.badRules "K") = true := by decide +kernel
-theorem rules_sound : subsetB Gen.K.unsoundRules (Known.unsoundRules "K") = true := by decide +kernel
-theorem rules_total : subsetB Gen.K.missingRules (Known.missingRules "K") = true := by decide +kernel
-theorem rules_local : Gen.K.nonLocalRules = [] := by decide +kernel
-theorem closure_total : Gen.K.closureTotalB = true := by decide +kernel
-theorem closure_exact : subsetB Gen.K.badClosure (Known.badClosure "K") = true := by decide +kernel
-theorem read_total : Gen.K.readTotalB = true := by decide +kernel
-theorem read_exact : subsetB Gen.K.badRead (Known.badRead "K") = true := by decide +kernel
+/-- a modal / first-order extension has exactly the truth-functional tables of its base (CFOL) -/
+theorem base_tables : Gen.K.tables.sameTF Gen.CFOL.tables = true := by decide +kernel
+theorem spec_defined : Gen.K.specDefinedB = true := by decide +kernel
+theorem tables_spec : subsetB Gen.K.tableDiff (Known.tableDiff "K") = true := by decide +kernel
+theorem defined_ops : Gen.K.tables.definedOpsBad = [] := by decide +kernel
+theorem tables_total : Gen.K.sem.tablesTotalB = true := by decide +kernel
+theorem rules_exact : subsetB Gen.K.sem.badRules (Known.badRules "K") = true := by decide +kernel
+theorem rules_sound : subsetB Gen.K.sem.unsoundRules (Known.unsoundRules "K") = true := by decide +kernel
+theorem rules_total : subsetB Gen.K.sem.missingRules (Known.missingRules "K") = true := by decide +kernel
+theorem rules_local : Gen.K.sem.nonLocalRules = [] := by decide +kernel
+theorem closure_total : Gen.K.sem.closureTotalB = true := by decide +kernel
+theorem closure_exact : subsetB Gen.K.sem.badClosure (Known.badClosure "K") = true := by decide +kernel
+theorem read_total : Gen.K.sem.readTotalB = true := by decide +kernel
+theorem read_exact : subsetB Gen.K.sem.badRead (Known.badRead "K") = true := by decide +kernel
+theorem sound_core : Gen.K.sem.soundCoreB = true := by decide +kernel
+
+/-- C01 for this logic: a closed tableau reached by any legal derivation has no countermodel. -/
+theorem c01_valid_sound (arg : Argument) (t : Tableau)
+    (hd : Deriv Gen.K.sem.soundPart.noQuantPart (trunk Gen.K.sem arg) t) (hclosed : t.allClosed = true)
+    (M : Struct) (hM : M.Interp Gen.K.sem) (e : Env M.D) (w0 : M.W) : ¬ Countermodel Gen.K.sem M e w0 arg :=
+  Props.C01.C01_valid_sound_partial Gen.K.sem sound_core arg t hd hclosed M hM e w0
 
 end Ptx.Gen.Obl.K
